@@ -16,3 +16,23 @@ package grpcv3
 //@   ensures exec.n == old(exec.n) + 1
 //@   ensures exec.ret1[old(exec.n)] != nil ==> ret0 == nil && ret1 == exec.ret1[old(exec.n)]
 //@   ensures ret0 != nil ==> exec.ret1[old(exec.n)] == nil
+
+// ---- C13: the request view handed to the pipeline must be the one of the HTTP entry points ----
+
+// one heimdall.Request object per request (see requestcontext.RequestContext.Request)
+//@ func (*RequestContext).Request
+//@   props C13
+//@   ensures ret0 != nil && r.hmdlReq == ret0
+//@   ensures old(r.hmdlReq) != nil ==> ret0 == old(r.hmdlReq)
+//@   ensures old(r.hmdlReq) == nil ==> ret0.Method == old(r.reqMethod) && ret0.RequestFunctions == iface(r) && ret0.URL != nil && ret0.URL.URL == old(*r.reqURL) && len(ret0.URL.Captures) == 0
+
+// header lookup is by canonical name
+//@ func (*RequestContext).Header
+//@   props C13
+//@   modifies nothing
+//@   ensures ret0 == r.reqHeaders[canonicalKey(name)]
+
+// the header view is keyed by canonical names
+//@ func canonicalizeHeaders
+//@   props C13
+//@   assert at call CanonicalHeaderKey#1: true
